@@ -115,3 +115,38 @@ Theorem C12_cadence_independence_whole_program :
     end.
 Proof. exact (fun K => main_whole_program_cadence K). Qed.
 Print Assumptions C12_cadence_independence_whole_program.
+
+(** * Projection freshness (strengthening driven by seed C12-H; Proofs/DriverFreshP.v)
+
+    `integrateAndNormalize()` divides by the integral of the CACHED bunch profile.  For the generated
+    main(): every such call is reached with the cache refreshed after the last write of the grid
+    ([fresh_checker], abstract interpretation with one bit), hence - for every kernel record, configuration
+    (whatever the output schedule, with or without a wake map), signal schedule and start state -
+    (1) the run equals the run of the program with `updateXProjection()` inserted before every
+    `integrateAndNormalize()` (the renormalisation always uses the charge of the CURRENT grid), and
+    (2) at every loop head the cached profile is the projection of the grid.
+    A refresh that depends on the output schedule is refused ([C12_stale_projection_refused]). *)
+From Inovesa Require Import Proofs.DriverFreshP Proofs.DriverFreshMainP.
+
+Theorem C12_renormalisation_reads_fresh_projection :
+  fresh_checker main_prog = true /\
+  (forall (K : kern) (sig : Z -> bool) (cf : cfg) (s : st K),
+     run sig cf (refresh_prog main_prog) s = run sig cf main_prog s) /\
+  (forall (K : kern) (sig : Z -> bool) (cf : cfg) (s : st K) (n : nat),
+     let h := iter sig cf (p_body main_prog) n (exec_blk sig cf (p_pre main_prog) s) in
+     xp h = k_projX K (g1 h)).
+Proof.
+  exact (conj main_fresh_checked
+          (conj (fun K => refresh_run K main_prog main_fresh_checked)
+                (fun K => fresh_at_heads K main_prog main_fresh_checked))).
+Qed.
+Print Assumptions C12_renormalisation_reads_fresh_projection.
+
+(** non-vacuity: main() renormalises in the loop body and in the final block, so [refresh_prog] does insert
+    two calls; and the checker refuses a loop whose refresh sits under the output-schedule guard *)
+Example C12_refresh_is_not_identity :
+  count_calls (p_body (refresh_prog main_prog)) = S (count_calls (p_body main_prog)) /\
+  count_calls (p_post (refresh_prog main_prog)) = S (count_calls (p_post main_prog)).
+Proof. split; vm_compute; reflexivity. Qed.
+Example C12_stale_projection_refused : fresh_checker stale_example = false.
+Proof. exact stale_example_refused. Qed.
